@@ -29,7 +29,7 @@ func TestSchemes(t *testing.T) {
 	if vlib.Thorough() {
 		big = 2
 	}
-	vlib.Check(t, 330, func(t *rapid.T) {
+	vlib.Check(t, 480, func(t *rapid.T) {
 		scheme := rapid.SampledFrom(schemeNames).Draw(t, "scheme")
 		o := policy.Opts{MaxDepth: 2}
 		maxN, fullUpTo, nSub := 6, 6, 0
@@ -195,8 +195,11 @@ func TestTassaAdmission(t *testing.T) {
 func TestTassaAdmissionBoundary(t *testing.T) {
 	const test = "TassaAdmissionBoundary"
 	p := &policy.Policy{Family: policy.Hier, N: 7, Levels: []policy.Level{{T: 2, Members: []int{0, 1, 2}}, {T: 5, Members: []int{3, 4, 5, 6}}}}
-	for _, field := range fieldNames {
-		for _, last := range []uint64{7, 1 << 20, 1 << 40, 1 << 62, 1<<64 - 3, 1<<64 - 2, 1<<64 - 1} {
+	for i, field := range fieldNames {
+		for j, last := range []uint64{7, 1 << 20, 1 << 40, 1 << 62, 1<<64 - 3, 1<<64 - 2, 1<<64 - 1} {
+			if !vlib.Mine(i*7 + j) {
+				continue
+			}
 			ids := []uint64{1, 2, 3, 4, 5, 6, last}
 			e := envs[field]
 			verdict := policy.TassaVerdict(p, ids, e.Q())
